@@ -21,29 +21,42 @@ KINDS = ("kill", "kill-trunc0")
 
 
 def body(c):
+    if D.replay_recorded(c):
+        return
     q = c.quick
     rnd = random.Random(c.seed)
     # 1. design level
     if q:
-        D.disk_mc(c, "kill:2commits+rotate+compact+gc+close", MaxCommits=2, MaxGC=1, MaxClose=1, timeout=400)
+        D.disk_mc(c, "kill:2commits+rotate+compact+gc", MaxCommits=2, MaxGC=1, timeout=400)
     else:
         D.disk_mc(c, "kill:3commits+rotate+compact+gc", MaxCommits=3, MaxGC=1, Dels="{FALSE, TRUE}", timeout=1500)
-        D.disk_mc(c, "kill:2commits+close+2crashes", MaxCommits=2, MaxClose=1, MaxCrash=2,
-                  keysets="MCKeySets2", timeout=1500)
+        D.disk_mc(c, "kill:2commits+gc+close", MaxCommits=2, MaxGC=1, MaxClose=1, timeout=1500)
+        D.disk_mc(c, "kill:2commits+2crashes", MaxCommits=2, MaxCrash=2, keysets="MCKeySets2", timeout=1500)
     D.disk_mc(c, "code-as-is:zero-length-log", expect_violation="OpensWithoutError", ZeroLenLogOK="FALSE",
               MaxCompact=0, timeout=300)
     # 2. workloads from the generator module (no drops here: C29)
-    n = 10 if q else 120
-    cases = D.generate(c, "workloads", n, c.seed, workers=4, Drops="{}")
+    n = 8 if q else 60
+    needs = ("flush", "compactL0", "gc", "rotate", "reopen", "write:big", "write:small", "write:del", "batch")
+    pool = D.generate(c, "workloads", max(6 * n, 60), c.seed, workers=4, Drops="{}")
+    cases = D.select_covering(pool, n, needs, c.seed)
     hist = D.op_histogram(cases)
     c.cov["workload_histogram"] = hist
-    for need in ("flush", "compactL0", "gc", "rotate", "reopen", "write:big", "write:small", "write:del", "batch"):
+    for need in needs:
         if not hist.get(need):
             raise vlib.Inconclusive("generated workloads contain no %s" % need)
     # 3. crash images
-    results, nchecks, classes = D.crash_campaign(c, cases, KINDS, "kill", reopen2=not q)
-    nenc = 2 if q else 12
-    r2, n2, cl2 = D.crash_campaign(c, cases[:nenc], KINDS, "kill(encrypted)", enc=True)
+    results, nchecks, classes = D.crash_campaign(c, cases, KINDS, "kill", reopen2=not q, full_confirm=1 if q else 3)
+    nenc = 1 if q else 6
+    r2, n2, cl2 = D.crash_campaign(c, cases[:nenc], KINDS, "kill(encrypted)", enc=True, full_confirm=0 if q else 1)
+    c.add_cases(nchecks + n2, classes | set("enc|" + x for x in cl2))
+    c.cov["rule"] = ("one evaluation = one crash point (hook event x image kind) re-opened with the real Open and judged "
+                     "against DiskDefs.PrefixAllowed; distinct = distinct (image kind, operation, hook point) classes; "
+                     "every hook event of every workload is a crash point (exhaustive over the recorded points)")
+    for r in results[:2]:
+        c.sample({"workload": " ; ".join(o["op"] + ("%s" % [(w["k"], "del" if w["del"] else "big" if w["big"] else "small") for w in o["w"]] if o["w"] else "")
+                                          for o in cases[r["ci"]]["ops"]),
+                  "hook_events": r["events"], "distinct_images": r["images"], "crash_points": r["nchecks"],
+                  "findings": len(r["findings"])})
     # 4. trace validation of the fs-event order of every run
     traces = [os.path.join(r["dir"], "trace.ndjson") for r in results]
     rej, strict = D.validate_traces(c, traces, "workloads")
@@ -57,24 +70,16 @@ def body(c):
     # 5. confirmation by really killing a child process
     binp = vlib.go_build("cmd/crashfs")
     conf = []
-    for r in results[: (2 if q else 10)]:
-        evs = sorted(rnd.sample(range(1, r["events"]), min(6 if q else 12, r["events"] - 1)))
+    for r in results[: (2 if q else 8)]:
+        evs = sorted(rnd.sample(range(1, r["events"]), min(4 if q else 12, r["events"] - 1)))
         conf += D.real_kill_confirm(c, binp, cases[r["ci"]], r, evs)
     c.cov["real_kill_confirmations"] = {"points": len(conf), "identical_to_image": sum(1 for x in conf if x["same_as_image"])}
     # evidence
-    c.add_cases(nchecks + n2, classes | set("enc|" + x for x in cl2), traces=len(traces))
-    c.cov["rule"] = ("one evaluation = one crash point (hook event x image kind) re-opened with the real Open and judged "
-                     "against DiskDefs.PrefixAllowed; distinct = distinct (image kind, operation, hook point) classes; "
-                     "every hook event of every workload is a crash point (exhaustive over the recorded points)")
+    c.add_cases(0, None, traces=len(traces))
     c.cov["exhaustive"] = True
     c.cov["sub_checks"] = {"C14_manifest_equals_directory_and_validate": nchecks + n2,
                            "C11_next_commit_above_all_versions": nchecks + n2,
                            "point_reads_agree_with_iterator": nchecks + n2}
-    for r in results[:2]:
-        c.sample({"workload": " ; ".join(o["op"] + ("%s" % [(w["k"], "del" if w["del"] else "big" if w["big"] else "small") for w in o["w"]] if o["w"] else "")
-                                          for o in cases[r["ci"]]["ops"]),
-                  "hook_events": r["events"], "distinct_images": r["images"], "crash_points": r["nchecks"],
-                  "findings": len(r["findings"])})
     c.assumptions += [
         "one goroutine is active at a time during a recorded run (NumCompactors=0; flush, compaction, GC driven "
         "synchronously; the flusher is parked at its gate), so the directory copied inside a hook is a state the "
